@@ -292,6 +292,18 @@ impl Resources {
         }
     }
 
+    /// Returns a path that identifies the file at the given location, whatever the spelling
+    /// used to reach it (relative, absolute or passing through other directories).
+    pub(crate) fn identify(&self, location: impl AsRef<Path>) -> PathBuf {
+        let location = location.as_ref();
+        match &self.source {
+            Source::FileSystem => {
+                std::fs::canonicalize(location).unwrap_or_else(|_| normalize_path(location))
+            }
+            Source::Memory(_) => normalize_path(location),
+        }
+    }
+
     /// Creates a new resource manager that operates in memory.
     ///
     /// This is useful for testing or when you want to process files without
